@@ -11,7 +11,7 @@ LEVEL = 'proof'
 PROP = 'C10'
 MODULES = ['Netpoll.Props.C10', 'Netpoll.Tie.Poll']
 MANIFEST = dict(
-    text='Lean 4 invariant proof over an interleaving model of one poller slot through any number of owners: for every sequence of alloc / register / fetch / dispatch / end-of-batch / close steps, stale Release calls and '
+    text='Lean 4 invariant proof over an interleaving model of one poller slot through any number of owners: for every sequence of alloc / register / fetch / dispatch / end-of-batch / close steps, stale Release calls, Release calls of the live owner (token taken and given back: C10_token_returned) and '
          'hang-ups recorded in a batch and delivered later by the hang-up goroutine (at any point of any continuation: after the owner closed, after the slot was reused), '
          'a fetched event is only ever dispatched to the callbacks of the owner it was fetched for (or dropped), a recorded hang-up only ever reaches the onHup of the owner it was recorded for, '
          'no stale call takes a later owner\'s token, and a slot returns to the free chain only between batches with nothing installed. '
@@ -92,7 +92,7 @@ def run(rep):
     rep.cov.update(evaluations=n, distinct_nontrivial=len(finals), step_histogram=dict(hist), slot_reuses=reuse, events_skipped_after_close=skipped, stale_calls=stale,
                    traces_validated_against_impl=n, samples=results[0]['samples'],
                    rule='random step sequences over up to 6 real connections sharing one private poller whose loop body the harness executes step by step (fetch = real EpollWait, dispatch = real handler on one event or on the rest of the batch, end of batch = opcache.free), '
-                        'with closes placed between fetch and dispatch, slot reuse by new connections, hang-up goroutines held at a blocked OnDisconnect and stale Release/Close/Next/Write/Flush on closed connections; every 4th sequence the real defaultPoll.Wait is the poller '
+                        'with closes placed between fetch and dispatch, slot reuse by new connections, hang-up goroutines held at a blocked OnDisconnect stale Release/Close/Next/Write/Flush on closed connections, Release on LIVE connections between steps (rel) and in a loop on another goroutine during a dispatch of arriving input (drel); every 4th sequence the real defaultPoll.Wait is the poller '
                         '(closes after its epoll_wait returned, opens in front of its handler); every step compared with the Lean model; bystanders must receive exactly what was sent and stay open and registered. distinct_nontrivial = distinct final slot observations')
     rep.cov['real_wait_rounds'] = hist.get('waitround', 0)
     rep.cov['handler_calls_with_delayed_hangups'] = sum(r.get('delayed', 0) for r in results)
